@@ -82,7 +82,15 @@ type Lemma struct {
 	Binders []SBinder
 }
 
+// Axiom is a trusted package-level fact (e.g. about package variables initialised once), assumed at
+// the entry of every function of the package and reported in the evidence.
+type Axiom struct {
+	PkgPath string
+	Clause  *Clause
+}
+
 type ContractSet struct {
+	Axioms  []*Axiom
 	Funcs   map[string]*FuncContract // pkgpath + "::" + key
 	Specs   map[string]*SpecFunc     // pkgpath + "::" + name
 	Lemmas  []*Lemma
@@ -97,7 +105,7 @@ var labelRe = regexp.MustCompile(`^\[([A-Za-z0-9_.]+)\]\s*`)
 var propsRe = regexp.MustCompile(`^@([A-Z0-9,]+)\s+`)
 
 var clauseKeywords = map[string]bool{
-	"func": true, "iface": true, "spec": true, "lemma": true, "requires": true, "ensures": true, "modifies": true, "loop": true,
+	"func": true, "iface": true, "spec": true, "lemma": true, "axiom": true, "requires": true, "ensures": true, "modifies": true, "loop": true,
 	"invariant": true, "decreases": true, "trusted": true, "props": true, "ghost": true, "at": true,
 	"pure": true, "nopanic": true, "replay": true, "bounded": true, "skip": true, "note": true,
 }
@@ -169,6 +177,13 @@ func (cs *ContractSet) ParseContractFile(pkgPath, filename string, f *ast.File, 
 				return fmt.Errorf("%s:%d: duplicate contract for %s", filename, l.line, key)
 			}
 			cs.Funcs[id] = cur
+		case "axiom":
+			cl, err := mk(rest)
+			if err != nil {
+				return err
+			}
+			cs.Axioms = append(cs.Axioms, &Axiom{PkgPath: pkgPath, Clause: cl})
+			cur, curLoop = nil, nil
 		case "spec":
 			// spec name(p T, q U) R = expr
 			sf, err := parseSpecFunc(rest)
